@@ -91,3 +91,39 @@ fn planted_short_item_is_not_a_hit() {
         }
     }
 }
+
+/// An item damaged on disk (same length) while the cache was closed must never be served: also not after a put of
+/// a nested sub-range (whose bytes are intact) was validated against it before any read.
+#[test]
+fn nested_put_does_not_bless_a_damaged_item() {
+    let root = tempfile::tempdir().unwrap();
+    let key = Key { prefix: "default".into(), hash: MerkleHash::from([9u64, 9, 9, 9]) };
+    let range = ChunkRange { start: 0, end: 8 };
+    let idx: Vec<u32> = (0..=8u32).map(|i| i * 16).collect();
+    let data: Vec<u8> = (0..128u32).map(|i| (i * 7 + 1) as u8).collect();
+    {
+        let c = open(root.path(), 1 << 20);
+        c.put(&key, &range, &idx, &data).unwrap();
+    }
+    let mut fs = Vec::new();
+    cache_files(root.path(), &mut fs);
+    assert_eq!(fs.len(), 1);
+    let mut bytes = std::fs::read(&fs[0]).unwrap();
+    let n = bytes.len();
+    // the payload is the last 128 bytes of the file: damage a byte of chunk 6
+    bytes[n - 128 + 6 * 16 + 3] ^= 0x20;
+    std::fs::write(&fs[0], &bytes).unwrap();
+    let c = open(root.path(), 1 << 20);
+    // nested put of chunks [0,3): its bytes are intact in the damaged file
+    let sub = ChunkRange { start: 0, end: 3 };
+    let _ = c.put(&key, &sub, &idx[..4], &data[..48]);
+    for r in [ChunkRange { start: 0, end: 7 }, ChunkRange { start: 6, end: 7 }, ChunkRange { start: 0, end: 8 }, ChunkRange { start: 5, end: 8 }] {
+        match c.get(&key, &r) {
+            Ok(Some(hit)) => {
+                let want = &data[(r.start * 16) as usize..(r.end * 16) as usize];
+                assert_eq!(hit.data.as_ref(), want, "C12 violated: wrong bytes served for chunk range {r:?} of an item that was damaged on disk");
+            },
+            Ok(None) | Err(_) => {},
+        }
+    }
+}
